@@ -936,8 +936,11 @@ fn gen_text(rng: &mut Rng, seeds: &Seeds) -> (String, &'static str) {
     if mode < 8 {
         // random bytes, made valid UTF-8 lossily
         let n = rng.below(200) as usize;
-        let bytes: Vec<u8> = (0..n).map(|_| rng.below(256) as u8).collect();
-        return (String::from_utf8_lossy(&bytes).into_owned(), "bytes");
+        // (any non-ASCII scalar outside a literal hits finding D13 at once, so most random
+        // byte strings are kept in the ASCII range, control characters included)
+        let hi = if rng.chance(1, 4) { 256 } else { 128 };
+        let bytes: Vec<u8> = (0..n).map(|_| rng.below(hi) as u8).collect();
+        return (String::from_utf8_lossy(&bytes).into_owned(), if hi == 256 { "bytes" } else { "bytes-ascii" });
     }
     if mode < 14 {
         // random printable ASCII + a few multi-byte scalars and line structure
@@ -947,8 +950,10 @@ fn gen_text(rng: &mut Rng, seeds: &Seeds) -> (String, &'static str) {
             let r = rng.below(40);
             if r == 0 {
                 s.push('\n');
-            } else if r == 1 {
+            } else if r == 1 && n % 4 == 0 {
                 s.push(*rng.pick(&['é', 'λ', '→', '😀', '\u{0}', '\u{7f}', '\r', '\t']));
+            } else if r == 1 {
+                s.push(*rng.pick(&['\u{0}', '\u{7f}', '\r', '\t', '"', '\\', '\'']));
             } else {
                 s.push((32 + rng.below(95) as u8) as char);
             }
@@ -960,8 +965,10 @@ fn gen_text(rng: &mut Rng, seeds: &Seeds) -> (String, &'static str) {
         let n = 1 + rng.below(60) as usize;
         let levels: Vec<usize> = (0..4).map(|_| rng.below(10) as usize).collect();
         let mut s = " ".repeat(if rng.chance(1, 2) { 0 } else { *rng.pick(&levels) });
+        let unicode = rng.chance(1, 6);
         for _ in 0..n {
             let w: &&str = rng.pick(SOUP_TEXT);
+            let w: &str = if !unicode && !w.is_ascii() { "x" } else { w };
             s.push_str(w);
             if rng.chance(1, 4) {
                 s.push('\n');
@@ -974,7 +981,8 @@ fn gen_text(rng: &mut Rng, seeds: &Seeds) -> (String, &'static str) {
     }
     // grammar-aware mutation of a valid program
     let seed = rng.pick(&seeds.texts).clone();
-    let base = window(rng, &seed, if rng.chance(1, 3) { 4096 } else { 600 });
+    let maxw = if rng.chance(1, 3) { 4096 } else { 600 };
+    let base = window(rng, &seed, maxw);
     if mode < 40 {
         return (base, "seed");
     }
@@ -1194,7 +1202,7 @@ fn front_end_one(vm: &gluon::RootedThread, src: &str) -> serde_json::Value {
     let r = gv::catch(|| vm.parse_partial_expr(&tc, "c09_input", src));
     match r {
         Err(p) => rep.problems.push((
-            format!("panic:parse_partial_expr:{}", LAST_PANIC.with(|l| l.borrow().clone())),
+            format!("panic:front-end:{}", LAST_PANIC.with(|l| l.borrow().clone())),
             format!("parse_partial_expr panicked: {}", p),
         )),
         Ok(Ok(_)) => status.push("parse:ok".to_string()),
@@ -1214,7 +1222,7 @@ fn front_end_one(vm: &gluon::RootedThread, src: &str) -> serde_json::Value {
     let r = gv::catch(|| vm.typecheck_str("c09_input", src, None));
     match r {
         Err(p) => rep.problems.push((
-            format!("panic:typecheck_str:{}", LAST_PANIC.with(|l| l.borrow().clone())),
+            format!("panic:front-end:{}", LAST_PANIC.with(|l| l.borrow().clone())),
             format!("typecheck_str panicked: {}", p),
         )),
         Ok(Ok(_)) => status.push("check:ok".to_string()),
@@ -1246,12 +1254,16 @@ fn front_end_one(vm: &gluon::RootedThread, src: &str) -> serde_json::Value {
 /// `S <i>` when starting and `R <i> <json>` when done.
 fn child_front(prelude: bool) {
     install_panic_hook();
-    let vm = gv::vm::new_vm();
-    vm.get_database_mut().set_implicit_prelude(prelude);
-    // warm up (loads the prelude once) so that the per-input watchdog measures the input
-    println!("W start");
-    let _ = vm.typecheck_str("c09_warm", "1", None);
-    println!("W done");
+    let fresh = || {
+        let vm = gv::vm::new_vm();
+        vm.get_database_mut().set_implicit_prelude(prelude);
+        // warm up (loads the prelude once) so that the per-input watchdog measures the input
+        println!("W start");
+        let _ = gv::catch(|| vm.typecheck_str("c09_warm", "1", None));
+        println!("W done");
+        vm
+    };
+    let mut vm = fresh();
     let stdin = std::io::stdin();
     let mut i = 0usize;
     for line in stdin.lock().lines() {
@@ -1264,6 +1276,15 @@ fn child_front(prelude: bool) {
         println!("S {}", i);
         let _ = std::io::stdout().flush();
         let v = front_end_one(&vm, &src);
+        let panicked = v["problems"]
+            .as_array()
+            .map(|a| a.iter().any(|p| p[0].as_str().map(|s| s.contains("panic")).unwrap_or(false)))
+            .unwrap_or(false);
+        if panicked {
+            // a panic inside the compiler poisons its mutexes: every later input on this VM
+            // would fail for that reason only, so continue on a fresh VM
+            vm = fresh();
+        }
         println!("R {} {}", i, v);
         let _ = std::io::stdout().flush();
         i += 1;
@@ -1334,7 +1355,9 @@ fn run_front_child(inputs: &[String], prelude: bool, watchdog: Duration) -> Vec<
         }
         match rx.recv_timeout(limit) {
             Ok(l) => {
-                if l.starts_with("W done") {
+                if l.starts_with("W start") {
+                    limit = Duration::from_secs(60);
+                } else if l.starts_with("W done") {
                     limit = watchdog;
                 } else if l.starts_with("S ") {
                     limit = watchdog;
@@ -1464,10 +1487,14 @@ fn account_front(out: &mut Out, c: &FrontCase, o: &FrontOutcome, what: &str) {
             }
             out.add("front:errors-checked", v["nerr"].as_u64().unwrap_or(0));
             if let Some(ps) = v["problems"].as_array() {
+                let mut seen = BTreeSet::new();
                 for p in ps {
                     let fp = p[0].as_str().unwrap_or("?");
                     let d = p[1].as_str().unwrap_or("?");
-                    out.oracle_fail(fp, &d.chars().take(400).collect::<String>(), replay.clone());
+                    if seen.insert(fp.to_string()) {
+                        out.count(&format!("front:problem:{}", fp));
+                        out.oracle_fail(fp, &d.chars().take(400).collect::<String>(), replay.clone());
+                    }
                 }
             }
             let toks = lex(&c.text);
@@ -1496,7 +1523,9 @@ fn account_front(out: &mut Out, c: &FrontCase, o: &FrontOutcome, what: &str) {
         FrontOutcome::Crash(class, err) => {
             let so = err.contains("overflowed its stack");
             let fp = if so {
-                format!("stackoverflow:{}", what)
+                // coarse call shape: mutual recursion groups (`rec`) vs everything else
+                let has_rec = lex(&c.text).iter().any(|t| t.k == K::Rec);
+                format!("stackoverflow:{}:{}", what, if has_rec { "rec" } else { "plain" })
             } else {
                 format!("abort:{}:{}", class, what)
             };
@@ -1656,7 +1685,8 @@ fn main() {
     }
     let n_soup = if thorough { 40000 } else { 3000 };
     for _ in 0..n_soup {
-        let (t, e) = gen_soup(&mut rng, if rng.chance(1, 5) { 60 } else { 16 });
+        let ml = if rng.chance(1, 5) { 60 } else { 16 };
+        let (t, e) = gen_soup(&mut rng, ml);
         layout_case(&mut out, &t, e, "soup");
     }
     let n_lexed = if thorough { 12000 } else { 1200 };
@@ -1670,8 +1700,15 @@ fn main() {
     // ---- Part 2: front-end oracle ---------------------------------------------------------------
     let n_front = if thorough { 12000 } else { 900 };
     let mut rng_f = Rng::new(args.seed, 903);
-    let mut cases: Vec<FrontCase> = corpus_cases.clone();
+    let mut cases: Vec<FrontCase> = vec![];
     let mut predicted: Vec<FrontCase> = vec![];
+    for c in &corpus_cases {
+        if predicted_layout_hang(&c.text) {
+            predicted.push(c.clone());
+        } else {
+            cases.push(c.clone());
+        }
+    }
     for p in SMALL {
         cases.push(FrontCase { text: p.to_string(), origin: "small".into(), prelude: false });
     }
